@@ -198,6 +198,8 @@ struct Run<'p> {
     dead: bool,
     /// clusters whose live backend table lacks a backend of the view (found by `converge`)
     clusters_missing_backends: BTreeSet<String>,
+    /// request number -> full id, for ids that carry padding
+    padded: HashMap<u64, String>,
 }
 
 const ANSWER_WAIT: Duration = Duration::from_secs(3);
@@ -363,7 +365,19 @@ impl<'p> Run<'p> {
         if !self.plan.raw && !self.master_forwards(idx, &cmd.rt) {
             return None;
         }
-        match self.w.send(cmd.rt.clone()) {
+        let sent = if cmd.pad > 0 {
+            // "<name>-<n>:<padding>": the answer echoes the id, so the padding sizes the answer
+            let base = self.w.next_id();
+            let n = base.rsplit('-').next().and_then(|n| n.parse::<u64>().ok()).unwrap_or(0);
+            let id = format!("{base}:{}", "x".repeat(cmd.pad));
+            self.padded.insert(n, id.clone());
+            self.out.o("backpressure/padded_commands", 1);
+            self.out.o("backpressure/padded_bytes", cmd.pad as u64);
+            self.w.send_with_id(&id, cmd.rt.clone()).map(|()| id)
+        } else {
+            self.w.send(cmd.rt.clone())
+        };
+        match sent {
             Ok(id) => {
                 self.out.commands_sent += 1;
                 self.out.o(&format!("verb/{v}/sent"), 1);
@@ -437,7 +451,19 @@ impl<'p> Run<'p> {
                 }
                 burst_len = 0;
                 let ids: Vec<String> = pending.iter().map(|(_, id)| id.clone()).collect();
-                self.collect(&ids);
+                let episode = pending.iter().any(|(i, _)| self.plan.cmds[*i].pad > 0);
+                if episode {
+                    // the main process is busy elsewhere: nothing is read for a while, the socket
+                    // and the worker's write buffer fill up; then the answers are drained slowly
+                    self.out.o("backpressure/episodes", 1);
+                    std::thread::sleep(Duration::from_millis(300));
+                    for id in &ids {
+                        self.collect(std::slice::from_ref(id));
+                        std::thread::sleep(Duration::from_millis(15));
+                    }
+                } else {
+                    self.collect(&ids);
+                }
                 if self.dead {
                     return;
                 }
@@ -453,6 +479,10 @@ impl<'p> Run<'p> {
                 if self.plan.c07 && pending.len() == 1 {
                     let (i, id) = pending[0].clone();
                     self.c07_after(i, &id);
+                } else if self.plan.c07 && pending.len() > 1 {
+                    // several commands went out together (back-pressure episode): the reference
+                    // dump for the next FAILURE check is the state after all of them
+                    self.prev_dump = self.w.dump_state(Duration::from_secs(3));
                 }
                 pending.clear();
             }
@@ -475,9 +505,13 @@ impl<'p> Run<'p> {
                 events += 1;
                 continue;
             }
-            let known = r.id.strip_prefix(&prefix).and_then(|n| n.parse::<u64>().ok()).is_some_and(|n| n >= 1 && n < upto);
+            let known = r.id.strip_prefix(&prefix).is_some_and(|rest| match rest.split_once(':') {
+                None => rest.parse::<u64>().ok().is_some_and(|n| n >= 1 && n < upto && !self.padded.contains_key(&n)),
+                Some((n, _)) => n.parse::<u64>().ok().is_some_and(|n| self.padded.get(&n) == Some(&r.id)),
+            });
             if !known {
-                unknown.push(json!({"id": r.id, "status": status_name(r.status), "message": r.message}));
+                let shown: String = r.id.chars().take(48).collect();
+                unknown.push(json!({"id": shown, "id_len": r.id.len(), "status": status_name(r.status), "message": r.message.chars().take(200).collect::<String>()}));
                 continue;
             }
             if r.status == ResponseStatus::Processing as i32 {
@@ -492,7 +526,8 @@ impl<'p> Run<'p> {
             viols.push(("exactly_once/answer_with_unknown_id".to_owned(), format!("{} response(s) carry an id that was never sent", unknown.len()), json!({"responses": unknown})));
         }
         for n in 1..upto {
-            let id = format!("{prefix}{n}");
+            let id = self.padded.get(&n).cloned().unwrap_or_else(|| format!("{prefix}{n}"));
+            let shown: String = if id.len() > 64 { format!("{}… ({} bytes)", &id[..40], id.len()) } else { id.clone() };
             if Some(id.as_str()) == skip {
                 continue;
             }
@@ -513,11 +548,11 @@ impl<'p> Run<'p> {
             let cmd = idx.map(|i| describe(&self.plan.cmds[i].rt));
             if t.is_empty() {
                 viols.push((format!("exactly_once/no_terminal_answer/{v}"),
-                    format!("request {id} ({v}) got no OK/FAILURE answer although a later Status barrier was answered ({p} processing notice(s))"),
-                    json!({"command_index": idx, "command": cmd, "processing": p})));
+                    format!("request {shown} ({v}) got no OK/FAILURE answer although a later Status barrier was answered ({p} processing notice(s))"),
+                    json!({"command_index": idx, "command": cmd, "processing": p, "id_bytes": id.len()})));
             } else if t.len() > 1 {
                 viols.push((format!("exactly_once/multiple_terminal_answers/{v}"),
-                    format!("request {id} ({v}) got {} terminal answers: {:?}", t.len(), t.iter().map(|s| status_name(*s)).collect::<Vec<_>>()),
+                    format!("request {shown} ({v}) got {} terminal answers: {:?}", t.len(), t.iter().map(|s| status_name(*s)).collect::<Vec<_>>()),
                     json!({"command_index": idx, "command": cmd, "answers": t.iter().map(|s| status_name(*s)).collect::<Vec<_>>()})));
             }
         }
@@ -1267,7 +1302,7 @@ pub fn run_plan(plan: &Plan) -> Outcome {
     };
     let opts = WorkerOpts { front_timeout: 20, back_timeout: 20, connect_timeout: 2, request_timeout: 10, ..WorkerOpts::default() };
     let w = Worker::start(opts);
-    let mut run = Run { plan, w, out: Outcome::default(), reference: ConfigState::new(), sent: HashMap::new(), forwarded: Vec::new(), prev_dump: None, dead: false, clusters_missing_backends: BTreeSet::new() };
+    let mut run = Run { plan, w, out: Outcome::default(), reference: ConfigState::new(), sent: HashMap::new(), forwarded: Vec::new(), prev_dump: None, dead: false, clusters_missing_backends: BTreeSet::new(), padded: HashMap::new() };
     run.out.o(if plan.raw { "sequences/raw" } else { "sequences/master_filtered" }, 1);
     run.out.o(if plan.burst { "sequences/bursts" } else { "sequences/one_at_a_time" }, 1);
     for p in &plan.patterns {
